@@ -163,6 +163,22 @@ theorem uint64ToHex_alphabet (v : BitVec 64) :
   simp
 
 
+/-- `uintN_to_hex` writes the `2·sizeof` upper-case hex digits of the value,
+most significant first (independent of the byte-lane macros) -/
+theorem uint8ToHex_eq_spec (v : BitVec 8) : uint8ToHex v = hexOfNumber 2 v.toNat := by
+  have h0 : v = lane v 0 := by simp [lane]
+  rw [uint8ToHex, h0, digit_hi, digit_lo]
+  simp [hexOfNumber, List.range_succ, lane]
+
+theorem uint16ToHex_eq_spec (v : BitVec 16) : uint16ToHex v = hexOfNumber 4 v.toNat := by
+  simp [uint16ToHex, digit_hi, digit_lo, hexOfNumber, List.range_succ]
+
+theorem uint32ToHex_eq_spec (v : BitVec 32) : uint32ToHex v = hexOfNumber 8 v.toNat := by
+  simp [uint32ToHex, digit_hi, digit_lo, hexOfNumber, List.range_succ]
+
+theorem uint64ToHex_eq_spec (v : BitVec 64) : uint64ToHex v = hexOfNumber 16 v.toNat := by
+  simp [uint64ToHex, digit_hi, digit_lo, hexOfNumber, List.range_succ]
+
 /-! ## base64 -/
 
 /-- the table compiled into base64.cpp is RFC 4648 table 1 followed by `=` -/
